@@ -5,6 +5,10 @@ cd "$(dirname "$0")" || exit 2
 . ./env.sh
 what=${1:-all}
 mkdir -p bin
+# a background run may point the harness at a snapshot of the repository (vp run --with-repo)
+if [ -n "$VP_RUN_REPO" ] && [ -d "$VP_RUN_REPO" ]; then
+  go mod edit -replace github.com/cosmos72/gomacro="$VP_RUN_REPO" || exit 2
+fi
 if [ "$what" = plain ] || [ "$what" = all ]; then
   go test -c -tags verif -o bin/simcheck ./cmd/simcheck || { echo "BUILD-FAILURE (plain)" >&2; exit 2; }
 fi
